@@ -75,7 +75,8 @@ Definition reached (c : cfg) (t : node) (q : path) : bool :=
   forallb (fun a => negb (skipped_dir c t a)) (proper_prefixes q).
 
 Definition kind_accepted (c : cfg) (k : kind) : bool :=
-  match k with Reg => true | Sym => c_symlinks c | Special => false end.
+  (* extracted iff regular, or a symlink when symlink reading is on -- nothing else, whatever other type bits say *)
+  match k with Reg => true | Sym => c_symlinks c | Special _ => false end.
 
 Definition size_ok (c : cfg) (size : Z) : bool := (c_max_size c <=? 0)%Z || (size <=? c_max_size c)%Z.
 
